@@ -57,9 +57,53 @@ pub fn write_case(ctx: &mut Ctx, fl: Flavour, compressed: bool, frames: &[Vec<u8
     }
 }
 
+/// a packet the encoder refuses (in the middle of serialising it) between packets it accepts: the refused one leaves nothing
+/// on the transport — not then, and not attached to a later frame
+pub fn refused_case(ctx: &mut Ctx, fl: Flavour, compressed: bool, which: usize, accept: usize) {
+    let ws: Vec<WEv> = if accept == 0 { vec![] } else { vec![WEv::Accept(accept); 64] };
+    ctx.oracle_eval("refused-packet");
+    let op = format!("c06.refused {} {} {} {}", fl.tok(), mode_tok(compressed), which, accept);
+    let sb = size_byte(compressed, 4);
+    let want: Vec<u8> = [[sb, 3, 1, 3], [sb, 3, 2, 3], [sb, 3, 3, 3]].concat();
+    let script = Script::new(vec![], ws);
+    let tr = Transport(script.clone());
+    let oks: Vec<bool> = match fl {
+        Flavour::Blocking => guard(std::panic::AssertUnwindSafe(|| {
+            let mut f = insim::net::blocking_impl::Framed::new(Box::new(tr.clone()), Codec::new(mode_of(compressed)));
+            refused_seq(which).into_iter().map(|p| f.write(p).is_ok()).collect::<Vec<bool>>()
+        })).unwrap_or_default(),
+        Flavour::Tokio => guard(std::panic::AssertUnwindSafe(|| {
+            let rt = tokio::runtime::Builder::new_current_thread().enable_time().build().unwrap();
+            rt.block_on(async {
+                let mut f = insim::net::tokio_impl::Framed::new(Box::new(tr.clone()), Codec::new(mode_of(compressed)));
+                let mut out = vec![];
+                for p in refused_seq(which) { out.push(f.write(p).await.is_ok()); }
+                out
+            })
+        })).unwrap_or_default(),
+    };
+    let out = script.lock().unwrap().out.clone();
+    if oks != vec![true, false, true, true] || out != want {
+        ctx.violation(&format!("c06/refused-packet/{}", fl.tok()), "a packet the encoder refuses left bytes on the transport (then or attached to a later frame), or the packets around it did not arrive as their frames", &op, &format!("ok,err,ok,ok | out={}", hex(&want)), &format!("{:?} | out={}", oks, hex(&out)));
+    }
+}
+
+fn refused_seq(which: usize) -> Vec<Packet> {
+    use insim::insim::*;
+    let tiny = |r: u8| -> Packet { Tiny { reqi: insim::identifiers::RequestId(r), subt: TinyType::Ping }.into() };
+    let refused: Packet = match which {
+        0 => { let mut h = Hcp::default(); h.info[20].h_mass = 250; h.into() },
+        1 => { let mut h = Hcp::default(); h.info[31].h_tres = 99; h.into() },
+        2 => Cpp { time: std::time::Duration::from_secs(70), ..Default::default() }.into(),
+        _ => Mso { msg: "a\u{11b}b".into(), textstart: 2, ..Default::default() }.into(),
+    };
+    vec![tiny(1), refused, tiny(2), tiny(3)]
+}
+
 pub fn replay_line(ctx: &mut Ctx, l: &str) -> bool {
     let w: Vec<&str> = l.split_whitespace().collect();
     match w.as_slice() {
+        ["c06.refused", fl, m, which, accept] => { refused_case(ctx, if *fl == "tokio" { Flavour::Tokio } else { Flavour::Blocking }, *m == "c", which.parse().unwrap_or(0), accept.parse().unwrap_or(0)); true },
         ["framed.write", fl, m, frames, ws] => {
             let frames: Vec<Vec<u8>> = if *frames == "-" { vec![] } else { frames.split('+').map(unhex).collect() };
             write_case(ctx, if *fl == "tokio" { Flavour::Tokio } else { Flavour::Blocking }, *m == "c", &frames, parse_wevents(ws));
@@ -111,5 +155,6 @@ pub fn generate(ctx: &mut Ctx) {
             }
         }
     }
+    for fl in [Flavour::Blocking, Flavour::Tokio] { for compressed in [true, false] { for which in 0..4usize { for accept in [0usize, 1, 3] { refused_case(ctx, fl, compressed, which, accept); } } } }
     ctx.exhaustive_domains.push("every decodable packet kind x acceptance sizes {1,2,3,4,5,7,64,all} x both flavours x both modes".into());
 }
